@@ -255,6 +255,9 @@ class Walker:
                 eqs.append(self.leaf(cmp_, at))
             r = f_or(*eqs)
             return f_not(r) if isinstance(e.ops[0], ast.NotIn) else r
+        if isinstance(e, ast.Call) and isinstance(e.func, ast.Name) and e.func.id == "isinstance" and len(e.args) == 2 and isinstance(e.args[1], ast.Tuple) \
+                and 1 <= len(e.args[1].elts) <= 6:
+            return f_or(*[self.leaf(ast.Call(func=e.func, args=[e.args[0], el], keywords=[]), at) for el in e.args[1].elts])
         lits = literals(e, True)
         out = []
         for (t, p) in sorted(lits):
